@@ -5,8 +5,9 @@
 (* __neg__, __abs__, __pow__, _apply_operation).  A case is a weighted      *)
 (* vector of two entries (small non-zero integers where observed, NaN or    *)
 (* +inf where masked), an operator and an operand (a number, a plain        *)
-(* tensor, a weighted tensor with the same weights, with no weights, or     *)
-(* with other weights).  Expected:                                          *)
+(* tensor, a plain tensor with one more axis (broadcasting), a weighted      *)
+(* tensor with the same weights, with no weights, or with other weights).    *)
+(* Expected:                                                                 *)
 (*   - the weights of the result are the weights of the weighted operand    *)
 (*     (masked entries stay masked), two different maskings are refused;    *)
 (*   - at observed entries the value is the operator applied to the two     *)
@@ -18,7 +19,8 @@ EXTENDS Integers, Sequences, FiniteSets, TLC
 CONSTANTS Fin,       \* non-zero integers allowed at observed entries
           Sent,      \* sentinels allowed at masked entries (subset of {NAN, PINF})
           Ops,       \* subset of the operator names below
-          Kinds      \* subset of {"number", "tensor", "wt_same", "wt_none", "wt_other"}
+          Kinds      \* subset of {"number", "tensor", "matrix", "wt_same", "wt_none", "wt_other"}  ("matrix": a plain tensor with one
+                     \* more axis - the weighted vector is broadcast along it, and so must its weights be)
 NAN == 1000000
 PINF == 1000001
 Binary == {"add", "radd", "sub", "rsub", "mul", "rmul", "div", "rdiv", "lt", "le", "eq", "ne", "gt", "ge"}
